@@ -23,7 +23,7 @@ MUTANTS = [
     {'name': 'logits taken from the first engine', 'file': F, 'old': 'merged_line.logits = line.logits', 'new': 'merged_line.logits = lines[0].logits'},
 ]
 
-KINDS = ['empty', 'zero', 'low', 'high', 'high2']
+KINDS = ['empty', 'zero', 'low', 'high', 'high2', 'unalign']
 
 
 def make_line(np, sparse, lid, kind, engine):
@@ -32,7 +32,8 @@ def make_line(np, sparse, lid, kind, engine):
     from pero_ocr.core.layout import TextLine
     chars = ['a', 'b', 'c', '~'] if engine % 2 == 0 else ['c', 'a', 'b', 'x', '~']
     C = len(chars)
-    tr = {'empty': '', 'zero': 'a', 'low': 'ab', 'high': 'ba', 'high2': 'cab'}[kind]
+    # unalign: 'aaa' needs five CTC frames, the line has four: the transcription cannot be aligned and every character counts 0.5
+    tr = {'empty': '', 'zero': 'a', 'low': 'ab', 'high': 'ba', 'high2': 'cab', 'unalign': 'aaa'}[kind]
 
     def row(label, p):
         r = np.full(C, (1.0 - p) / (C - 1))
@@ -40,6 +41,10 @@ def make_line(np, sparse, lid, kind, engine):
         return np.log(r)
     if kind == 'empty':
         lg = np.log(np.full((2, C), 1.0 / C))
+    elif kind == 'unalign':
+        r = np.full(C, 0.1 / (C - 1))
+        r[chars.index('a')] = 0.9
+        lg = np.log(np.stack([r / r.sum()] * 4))
     elif kind == 'zero':
         other = (chars.index('a') + 1) % (C - 1)
         r = np.full(C, 0.05 / (C - 2))
@@ -73,6 +78,25 @@ def snapshot(line):
     return {f: getattr(line, f) for f in ('transcription', 'logits', 'characters', 'transcription_confidence') + GEOM}
 
 
+def reference_confidence(np, line):
+    """the line score the merge is specified with, computed apart from merge_ocr_results.get_confidences: mean per-character
+    confidence over the line's OWN character table; 0.5 per character when the transcription cannot be aligned; -10 for no text"""
+    from pero_ocr.core.confidence_estimation import get_line_confidence
+    if line.transcription is None or line.transcription == '':
+        return -10.0
+    table = {}
+    for i, c in enumerate(line.characters):
+        table[c] = i
+    labels = np.asarray([table[c] for c in line.transcription])
+    try:
+        import io, contextlib
+        with contextlib.redirect_stdout(io.StringIO()):
+            conf = get_line_confidence(line, labels)
+    except ValueError:
+        conf = np.ones(len(line.transcription)) * 0.5
+    return float(np.mean(conf))
+
+
 def check_case(np, sparse, mor, engines_kinds, alias=None):
     """engines_kinds: tuple (per engine) of tuples (per line) of kinds. returns list of problems"""
     layouts = [make_layout(np, sparse, ks, e, mixed=(alias == 'mixed')) for e, ks in enumerate(engines_kinds)]
@@ -87,8 +111,7 @@ def check_case(np, sparse, mor, engines_kinds, alias=None):
     for pl in layouts:
         cs = []
         for l in pl.lines_iterator():
-            c = mor.get_confidences(l)
-            cs.append(float(c.mean()) if c.size > 0 else -10.0)
+            cs.append(reference_confidence(np, l))
         confs.append(cs)
     mor.merge_layouts(layouts)
     bad = []
